@@ -333,3 +333,20 @@ func Compose(u *Universe, rng *rand.Rand, colsPerTable int, firstID int) []*Mode
 	}
 	return models
 }
+
+// CrudOK tells whether sqlcrud documents the column kind as supported: the Valuer / Scanner
+// methods can only be attached to named types, and unions are refused as columns.
+func CrudOK(s ColSpec) bool {
+	return s.TE.K == "basic" || s.TE.K == "time" || s.TE.K == "ref"
+}
+
+// Filter returns the universe restricted to the specifications keep accepts.
+func (u *Universe) Filter(keep func(ColSpec) bool) *Universe {
+	out := &Universe{Env: u.Env}
+	for _, s := range u.Specs {
+		if keep(s) {
+			out.Specs = append(out.Specs, s)
+		}
+	}
+	return out
+}
